@@ -118,9 +118,11 @@ class World(object):
         if not (value <= self.ratios.get(oracle, -1.0)):
             self.ratios[oracle] = value
 
-    def violate(self, prop, oracle, detail, op=None):
-        self.violations.append({"property": prop, "oracle": oracle, "op": self.op_index if op is None else op,
-                                "detail": detail})
+    def violate(self, prop, oracle, detail, op=None, facts=None):
+        v = {"property": prop, "oracle": oracle, "op": self.op_index if op is None else op, "detail": detail}
+        if facts:
+            v["facts"] = facts
+        self.violations.append(v)
 
     def peer_call(self, seam):
         self.seq += 1
